@@ -117,12 +117,22 @@ class C11:
             return None
         stats.inc("accepted_both")
         p0, p1 = r0["ok"][0], r1["ok"][0]
-        try:
-            d0, d1 = erase_annotations(p0), erase_annotations(p1)
-            nann = count_annotations(p1)
-        except (SyntaxError, ValueError):
+        def parses(py):
+            try:
+                erase_annotations(py)
+                return True
+            except (SyntaxError, ValueError):
+                return False
+        ok0, ok1 = parses(p0), parses(p1)
+        if not ok0 and not ok1:
             stats.inc("invalid_python_left_to_C02")
             return None
+        if ok0 != ok1:
+            # one setting gives a module CPython parses, the other does not: the flag changed more than annotations
+            return {"what": "the output is valid Python only with annotate %s" % ("off" if ok0 else "on"),
+                    "python_off": p0, "python_on": p1}
+        d0, d1 = erase_annotations(p0), erase_annotations(p1)
+        nann = count_annotations(p1)
         if nann:
             stats.mark_nontrivial({"src": src}, sample=self.summarize(case), key=case.get("gen"))
         if d0 != d1:
